@@ -429,6 +429,27 @@ def fam_files(case):
     _fold_same_as(J, reffail,
                   "round-trip failures the saved object shows already "
                   "(reported by the paths family)")
+    # history: weights given at construction, the adjacency re-assigned
+    # (same matrix; the embedded graph is rebuilt), then save -> Load
+    before = {v["key"] for v in J.viol}
+    try:
+        net3 = Network(adjacency=sp["A"], directed=sp["directed"],
+                       node_weights=sp["w_in"], silence_level=3)
+        net3.adjacency = np.array(sp["A"])
+        net3 = _decorate(net3, sp)
+    except Exception:   # noqa
+        net3 = None
+    if net3 is not None:
+        _roundtrip(J, "Network",
+                   lambda fn, fmt: Network.Load(fn, fmt, silence_level=3),
+                   lambda fn, fmt: net3.save(fn, fmt),
+                   lambda ext: _fname("net3", ext), sp,
+                   explain=_explained_by_fromigraph(J, sp),
+                   label="node_weights=,adjacency=,save+Load")
+        J.viol = [v for v in J.viol if v["key"] in before or (
+            v["key"].replace("node_weights=,adjacency=,save+Load",
+                             "save+Load") not in before
+            and "node_weights=,adjacency=,save+Load[gml" not in v["key"])]
     # history: a saved object whose node weights are changed afterwards and
     # that is saved again must store the new weights
     wk2 = (wk + 1) % 3
